@@ -17,6 +17,7 @@ Documented exemptions are not exercised as violations: the optimiser's initial g
 (conj() of a real chain state) is counted as an observation, not a violation.
 Known defects re-found with their own signatures: D3, D6, D8 (see SIG_* below).
 """
+import os
 import time
 
 import numpy as np
@@ -612,12 +613,12 @@ def chain_ops(env):
     def op_copy_then_mutate():
         s = env.pick(env.states() + env.mpos())
         S = env.objs[s]
-        which = int(rng.integers(0, 5))
+        which = int(rng.integers(0, 6))
         left = bool(rng.random() < 0.5)
         m = int(rng.integers(1, 3))
         kind = str(rng.choice(["mps_only", "mps_and_coeff", "mps_norm_to_coeff"]))
         k = int(rng.integers(0, S.site_num))
-        if which == 2 and not hasattr(S, "coeff"):
+        if which in (2, 5) and not hasattr(S, "coeff"):
             which = 0
 
         def call():
@@ -631,13 +632,28 @@ def chain_ops(env):
                 c.normalize(kind)
             elif which == 3:
                 c.scale(complex(0.0, 2.0), inplace=True)
+            elif which == 5:
+                c.coeff *= 2.0          # in-place arithmetic on the copy's own prefactor (what evolve_exact does)
             else:
                 c.to_complex(inplace=True)
                 c.move_qnidx(k)
             return c
         nm = ["copy().canonicalise", "copy().compress", "copy().normalize", "copy().scale(inplace)",
-              "copy().to_complex(inplace)/move_qnidx"][which]
+              "copy().to_complex(inplace)/move_qnidx", "copy().coeff*=2"][which]
         return nm, [s], False, call, {}
+
+    def op_reload():
+        # a state written to disk and read back is one more live object of the pool
+        s = env.pick(env.states())
+        S = env.objs[s]
+
+        def call():
+            import tempfile, os as _os
+            with tempfile.TemporaryDirectory(prefix="c13_reload_") as tmp:
+                fn = _os.path.join(tmp, "state.npz")
+                S.dump(fn)
+                return type(S).load(env.model, fn)
+        return "dump+load", [s], False, call, {}
 
     def op_from_mps():
         s = env.pick(env.states(mps_only=True))
@@ -751,7 +767,7 @@ def chain_ops(env):
     return [op_copy, op_metacopy, op_conj, op_to_complex, op_scale, op_add, op_add, op_add_mpdm, op_add_mpo, op_distance,
             op_dot, op_apply, op_apply, op_mpdm_apply, op_mpo_mpo, op_conj_trans, op_variational, op_measure, op_measure,
             op_copy_then_mutate, op_copy_then_mutate, op_from_mps, op_evolve, op_evolve, op_evolve, op_evolve, op_evolve,
-            op_evolve_exact, op_evolve_exact, op_optimize, op_expand, op_tree_from_mps]
+            op_evolve_exact, op_evolve_exact, op_optimize, op_expand, op_tree_from_mps, op_reload, op_reload]
 
 
 def run_chain_call(run, env, thunk):
@@ -885,10 +901,21 @@ def chain_program(run, env):
     a_name = env.pick(env.states() + env.mpos())
     a = env.objs[a_name]
     is_state = hasattr(a, "coeff")
-    prods = ["copy", "conj", "to_complex", "scale", "scale1", "add", "applied", "copycopy", "conj_trans", "from_mps", "evolve"]
+    prods = ["copy", "conj", "to_complex", "scale", "scale1", "add", "applied", "copycopy", "conj_trans", "from_mps", "evolve",
+             "reload_copy"]
     p = str(rng.choice(prods))
     try:
-        if p == "copy":
+        if p == "reload_copy":
+            # the source is a state read back from disk; the derived object is its copy
+            if not is_state:
+                return
+            import tempfile
+            with tempfile.TemporaryDirectory(prefix="c13_reload_") as tmp:
+                fn = os.path.join(tmp, "state.npz")
+                a.dump(fn)
+                a = type(a).load(env.model, fn)
+            b = a.copy()
+        elif p == "copy":
             b = a.copy()
         elif p == "copycopy":
             b = a.copy().copy()
@@ -924,8 +951,10 @@ def chain_program(run, env):
         return
     if b is a or any(m is None for m in b._mp):
         return
-    muts = ["canonicalise", "compress", "scale_inplace", "normalize", "move_qnidx", "to_complex_inplace", "setitem", "fold"]
+    muts = ["canonicalise", "compress", "scale_inplace", "normalize", "move_qnidx", "to_complex_inplace", "setitem", "fold", "coeff_imul"]
     m = str(rng.choice(muts))
+    if p == "reload_copy" and rng.random() < 0.5:
+        m = "coeff_imul"
     target_is_b = bool(rng.random() < 0.6)
     t, other = (b, a) if target_is_b else (a, b)
     o_before = observe(other)
@@ -948,6 +977,10 @@ def chain_program(run, env):
             t.move_qnidx(int(rng.integers(0, t.site_num)))
         elif m == "to_complex_inplace":
             t.to_complex(inplace=True)
+        elif m == "coeff_imul":
+            if not hasattr(t, "coeff"):
+                return
+            t.coeff *= (2.0 if rng.random() < 0.5 else complex(0.5, 1.5))    # in-place arithmetic on the object's own prefactor (as evolve_exact does)
         elif m == "setitem":
             i = int(rng.integers(0, t.site_num))
             t[i] = np.array(t[i].array) * 0.25
